@@ -135,10 +135,19 @@ func (s *LinkedLog) ReadWithSize(offset uint64, size uint64) ([]OffsetAndSizeAnd
 	if size > 256*mib {
 		return nil, indexes.OffsetAndSize{}, fmt.Errorf("compacted indexes length too large: %d", size)
 	}
+	if size < 1+indexes.IndexValueSize_CidToOffsetAndSize {
+		return nil, indexes.OffsetAndSize{}, fmt.Errorf("compacted indexes length too small: %d", size)
+	}
+	// size is the length of the whole record: uvarint(payloadLen) + payload. The width of the prefix is the
+	// width of payloadLen, not of size: they differ when size crosses a varint boundary (e.g. size 128 = 1 + 127).
+	prefixLen := uint64(sizeOfUvarint(size))
+	if uint64(sizeOfUvarint(size-prefixLen)) != prefixLen {
+		prefixLen--
+	}
 	// debugln("compactedIndexesLen:", compactedIndexesLen)
 	// Read the compressed indexes
-	data := make([]byte, size-uint64(sizeOfUvarint(size))) // The size bytes have already been read.
-	_, err := s.file.ReadAt(data, int64(offset)+int64(sizeOfUvarint(size)))
+	data := make([]byte, size-prefixLen) // The size bytes have already been read.
+	_, err := s.file.ReadAt(data, int64(offset)+int64(prefixLen))
 	if err != nil {
 		return nil, indexes.OffsetAndSize{}, err
 	}
